@@ -32,6 +32,22 @@ Theorem C10_tag_mapping_before_or_after :
 Proof. exact crash_tags_before_or_after. Qed.
 Print Assumptions C10_tag_mapping_before_or_after.
 
+(* Effects of operations that returned are all present: after any history of completed
+   operations the blobs under blobs/ and the tag mapping read from index.json are exactly
+   those of the sequential specification of the API (spec_run: Push adds a verified blob,
+   Delete removes it and its tags, Tag/Untag update the map). *)
+Theorem C10_completed_effects :
+  forall (H : list N -> N) (shuffle : nat -> list entry -> list entry),
+    (forall c l e, In e (shuffle c l) <-> In e l) ->
+    forall (h : list op),
+      let s := run H shuffle false h init in
+      let bs := fst (spec_run H h (fun _ => false) (fun _ => None)) in
+      let tg := snd (spec_run H h (fun _ => false) (fun _ => None)) in
+      (forall d, exists_file (sfs s) (FBlob d) = bs d) /\
+      exists l, read_index (sfs s) = Some l /\ forall r n, tag_of l r n <-> tg r = Some n.
+Proof. exact completed_effects. Qed.
+Print Assumptions C10_completed_effects.
+
 (* The code before the repair (os.WriteFile on index.json itself, [inplace = true]):
    the theorem is false.  Witness: SaveIndex on the fresh store cut after open(O_TRUNC). *)
 Theorem C10_crash_safe_refuted_inplace :
